@@ -18,8 +18,8 @@ from typing import Any, Callable
 
 VERIF = Path(__file__).resolve().parent.parent
 REPO = Path(os.environ.get("VERIF_REPO", "/repo"))
-EVIDENCE_DIR = VERIF / "evidence"
-REPLAY_DIR = VERIF / "evidence" / "replay"
+EVIDENCE_DIR = Path(os.environ.get("VERIF_EVIDENCE_DIR") or (VERIF / "evidence"))
+REPLAY_DIR = EVIDENCE_DIR / "replay"
 KNOWN_FILE = VERIF / "known_findings.json"
 
 
@@ -203,9 +203,11 @@ def run_check(prop: str, tier: str, fn: Callable[[Ctx], None], level: str, expla
         replay.write_text(json.dumps(
             [{"rule": f.rule, "key": f.key, "what": f.what, "where": f.where, "facts": f.facts} for f in unlisted],
             indent=1, default=str))
-        for f in unlisted:
+        for f in unlisted[:30]:
             print(f"  finding rule={f.rule} at {f.where}: {f.what}")
             print(f"          key={f.key}")
+        if len(unlisted) > 30:
+            print(f"  ... and {len(unlisted) - 30} more findings (all in the replay file)")
         print(f"VIOLATION property={prop} replay={replay}")
         return 1
 
